@@ -363,7 +363,7 @@ def _replay_path(args):
             # how entering fails rotates: an ordinary error, an AttributeError (which must not be mistaken for
             # "has no __aenter__": the manager also offers the synchronous protocol), or a cancellation that
             # arrives while __aenter__ is suspended.  In no case may anything of it be registered.
-            mode = ("error", "attributeerror", "cancelled")[(salt + j) % 3]
+            mode = ("error", "attributeerror", "cancelled", "syncerror")[(salt + j) % 4]
             thrown = Cancelled("cancel")
 
             class Failing:
@@ -382,7 +382,17 @@ def _replay_path(args):
                 def __exit__(self, *a):
                     w.log.append((0, "failed-enter-exited"))
 
-            if mode == "cancelled":
+            class FailingSync:        # a manager of the synchronous protocol only, whose __enter__ raises
+                def __enter__(self):
+                    raise EnterError()
+
+                def __exit__(self, *a):
+                    w.log.append((0, "failed-enter-exited"))
+
+            if mode == "syncerror":
+                r = run(stack.enter_context(FailingSync()), w.acct)
+                ok = r[0] == "raised" and type(r[1]) is EnterError
+            elif mode == "cancelled":
                 t_ = Task(stack.enter_context(Failing()), w.acct)
                 r = t_.step()
                 r = t_.throw(thrown) if r[0] == "token" else r
